@@ -28,7 +28,7 @@ na.sort(key=lambda d:d["property_id"])
 m = dict(
  version=1,
  setup_cmd="python3 check.py --setup",
- hooks=dict(guard="GMSSL_VERIF", enable="none needed: every seam is a libc symbol taken over with -Wl,--wrap (send recv usleep time getentropy close) or a compiler flag (-finstrument-functions, sanitizers); libgmssl.a is rebuilt from /repo's working tree by cmake into /verif/build/<variant>/lib",
+ hooks=dict(guard="GMSSL_VERIF", enable="none needed, no source change in /repo: every seam is a symbol taken over at link time with -Wl,--wrap (libc: send recv usleep time getentropy close socket connect gethostbyname, the non-reentrant ctime/asctime/localtime/gmtime/strtok/rand/srand, the process-wide signal/sigaction/setenv/unsetenv/putenv/setlocale/umask/chdir; libgmssl: sm2_sign_finish for the junk-signature prover) or a compiler flag when libgmssl.a is rebuilt from /repo's working tree by cmake into /verif/build/<variant>/lib (-Dmalloc=gmsim_lib_malloc for the allocator seam, -finstrument-functions for preemption points, sanitizers)",
             baseline_off_cmd="cmake --build /repo/_build -j16 && ctest --test-dir /repo/_build -j8 --timeout 900",
             source_commits=[], add_only=True),
  engines=[dict(name="gmsim", path="sim/", serves_properties=sorted(claimed),
